@@ -12,7 +12,7 @@ from .common import L
 
 ID = "C03"
 RUNS = {"quick": 36_000, "thorough": 700_000}
-BUDGET_S = {"quick": 60, "thorough": 800}
+BUDGET_S = {"quick": 120, "thorough": 800}
 CHUNK = 300
 RULE = ("each run draws a (domain, problem), a state reached by a reference random walk, and an applicable consistent "
         "call; the call is applied under 3-6 hash schedules x the four (allow_inapplicable_actions, skip_validation) "
@@ -129,6 +129,13 @@ def run(ctx):
             d, p, s0 = lib(ctx, W, S, f"-{k}")
         flags = FLAGS[ctx.s("ops").draw(4)] if k else FLAGS[0]
         op = L().Operator(d.actions[aname], d, list(args), p.objects)
+        if k and ctx.s("sched").draw(5) == 0:
+            # fault: the caller's first use of the operator object is interrupted at a tape-chosen line (or completes,
+            # when the line lies beyond the call); the object is then used for the call under test
+            first = [lambda: op.apply(s0.copy(), allow_inapplicable_actions=flags[0], skip_validation=flags[1]),
+                     lambda: op.is_applicable(s0), op.ground][ctx.s("sched").draw(3)]
+            if C.interrupted(ctx, first):
+                ctx.probes["first_use_interrupted"] += 1
         rec = []
         got = apply(ctx, op, s0, flags, site, rec)
         orders.add(tuple(rec))
